@@ -198,6 +198,28 @@ def corruptions(doc):
                                     e.text = "!=" if e.text == "==" else "=="
                                     return
                         variants.append(ch_crit)
+                        # the duplicate differs only in that one AND/OR group of its criteria has one more member at the end: one more
+                        # condition, or one more nested group of the other kind
+                        GROUPS = ("ANDedConditions", "ORedConditions")
+                        n_groups = sum(1 for e in walk(_bc(orig)) if e.tag in GROUPS)
+                        any_cond = next((e for e in walk(_bc(orig)) if e.tag == "Condition"), None)
+                        for g in range(n_groups if any_cond is not None else 0):
+                            def ch_more_cond(d, g=g):
+                                grp = [e for e in walk(_bc(d)) if e.tag in GROUPS][g]
+                                grp.children.append(clone(next(e for e in walk(_bc(d)) if e.tag == "Condition")))
+
+                            def ch_more_group(d, g=g):
+                                grp = [e for e in walk(_bc(d)) if e.tag in GROUPS][g]
+                                c0 = next(e for e in walk(_bc(d)) if e.tag == "Condition")
+                                grp.children.append(El(GROUPS[1 - GROUPS.index(grp.tag)], children=[clone(c0), clone(c0)]))
+
+                            def ch_fewer(d, g=g):
+                                grp = [e for e in walk(_bc(d)) if e.tag in GROUPS][g]
+                                if len(grp.children) > 2:
+                                    grp.children.pop()
+                                else:
+                                    grp.children.append(clone(grp.children[-1]))
+                            variants += [ch_more_cond, ch_more_group, ch_fewer]
                     else:
                         variants.append(lambda d: _bc(d).children.append(El("RestrictionCriteria", children=[El("Comparison", {"parameterRef": "PKT_APID", "value": "77"})])))
                 elif others:
@@ -444,7 +466,7 @@ def run(ctx):
         "bound": (f"consistency of {len(items)} generated documents (container trees with <= {3 if ctx.quick else 4} containers in both document orders, palette "
                   f"pairs) in two namespace spellings and of {len(BUNDLED)} bundled documents; EVERY single-point corruption of {len(core)} core documents: each "
                   "parameterRef / nested containerRef / base containerRef / parameterTypeRef renamed to an undefined name; each type, parameter and container "
-                  "duplicated verbatim (2 positions) and with one change (2 positions; containers: abstract flag, an entry, the description); each deleted; "
+                  "duplicated verbatim (2 positions) and with one change (2 positions; containers: abstract flag, an entry, the description, and for every AND/OR group of its criteria one more trailing condition / one more trailing nested group / one member fewer); each deleted; "
                   "self base, self nesting, base cycle, nesting cycle and mixed cycle for every container (pair)"),
         "rule": "one evaluation = one load attempt (plus graph audit when it loads); distinct non-trivial = distinct corruptions and distinct audited documents",
     }
